@@ -1,6 +1,6 @@
 """Contracts for the metadata source's path scheme and forget operations (property C05: "every storage backend behaves like one dictionary of
 memoized calls"; anchored: DataSourceMetadataSource path scheme and forget by directory / file prefix): _get_function_path, _get_path,
-_get_metadata_path, _get_metadata_key, forget_call, forget_function, forget_everything, put_memento, write_metadata, list_mementos.
+_get_metadata_path, _get_metadata_key, forget_call, forget_function, forget_everything, put_memento, write_metadata, list_mementos, list_functions.
 
 The layout of the metadata area (documented store layout, shared with other implementations):
     m/<qualified name>/<argument hash>.memento.json                       the memento of a call
@@ -18,6 +18,7 @@ from pyvc.engine import PyRaise, Unsupported
 
 def load(R):
     DKey = R.record("DataSourceKey", key=TStr)
+    R.namedtuples = set(getattr(R, "namedtuples", ())) | {"DataSourceKey"}      # types.py: DataSourceKey = namedtuple("DataSourceKey", ["key"])
     R.attr("qualified_name", TStr)
     R.attr("arg_hash", TStr)
     R.attr("fn_reference", TObj("nn:FunctionReference"))
@@ -117,6 +118,20 @@ def load(R):
                           "len(ghost('listed')) == old(len(ghost('listed'))) + 1", "len(ghost('deleted')) == NDEL()",
                           "same(ghost('listed')[old(len(ghost('listed')))], listing_f(listing(self.data_source, FPATH(fn), '', False), limit, '.memento.json'))"]},
                labels={"local_types": {"result": TList(TObj())}},
+               modifies=["ghost:listed", "ghost:last_listing"])
+
+    # list_functions ("listings enumerate exactly the live entries"): one listing of the metadata root 'm', not recursive, no prefix; every listed key 'm/<qualified name>'
+    # yields the reference for exactly that qualified name (the key without its 'm/' prefix), in the order listed
+    R.uf("ref_named", [TStr], TObj())
+    R.contract("reference:FunctionReference.from_qualified_name", assumed=True, types={"qualified_name": TStr}, returns=TObj(), ensures=["same(result, ref_named(qualified_name))"],
+               raises={"Exception+": []}, notes="assumed here: the reference is a function of the stored name (naming / never raising on well-formed names: C12)")
+    R.contract(D + "list_functions", prop="C05", types={"self": DMS}, returns=TList(TObj()), ghost_params=dict(GH, last_listing=TList(DKey)),
+               ensures=["len(ghost('listed')) == old(len(ghost('listed'))) + 1",
+                        "same(ghost('listed')[old(len(ghost('listed')))], listing(self.data_source, 'm', '', False))",
+                        "len(result) == len(ghost('last_listing'))",
+                        "forall(int, lambda j: implies(0 <= j and j < len(result), same(result[j], ref_named(ghost('last_listing')[j].key[2:]))))",
+                        "len(ghost('deleted')) == NDEL()"],
+               raises={"Exception+": ["len(ghost('deleted')) == NDEL()"]},
                modifies=["ghost:listed", "ghost:last_listing"])
 
     # ---------------------------------------------------------------- writes: put_memento, write_metadata
